@@ -235,7 +235,16 @@ func equals(t types.Type, x, y value) bool {
 	case *value:
 		return x == y.(*value)
 	case chan value:
+		// the zero value of a channel type is a nil host channel; made channels are *mchan
+		if ym, ok := y.(*mchan); ok {
+			return x == nil && ym == nil
+		}
 		return x == y.(chan value)
+	case *mchan:
+		if yc, ok := y.(chan value); ok {
+			return x == nil && yc == nil
+		}
+		return x == y.(*mchan)
 	case structure:
 		return x.eq(t, y)
 	case array:
